@@ -80,6 +80,15 @@ def handle (op : String) (args : List Val) : Option Val :=
     match historyM (fun s co => agRound expApprox eta (dloss s.weights.length) gradAB copt sopt s co) s0 cohorts with
     | none => some (.sym "err")
     | some res => some (.list (res.map renderAg))
+  | "c17.apfl_eval", [seg, params, table, ids] => do
+    -- the params each client id is evaluated with, given the server params and the client table
+    let seg ← seg.toNats?; let params ← params.toRats?; let ids ← ids.toNats?
+    let table ← Val.mapM? (fun e => match e with
+      | .list [i, cp, coef] => do
+        some ((← i.toNat?), ({ params := (← cp.toRats?), coef := (← coef.toRats?) } : ApflClientState))
+      | _ => none) table
+    let s : ApflServerState Unit Nat := ⟨params, (), table⟩
+    some (.list (ids.map fun i => Val.ofRats (apflEvalParams seg s i)))
   | "c17.weights", [w, es] => do
     let w ← w.toRats?; let es ← es.toRats?
     match updateWeights w es with
